@@ -6726,11 +6726,42 @@ impl RelationalEngine {
         errors
     }
 
+    /// Re-reads rows that were matched by an unlocked scan after their row locks were acquired.
+    ///
+    /// Between the scan and the lock another transaction may have changed, deleted or rolled
+    /// back these rows. The pre-image recorded for undo and the index entries to replace must
+    /// be the ones that are current while the lock is held; rows that are gone or no longer
+    /// match the condition are dropped.
+    fn reread_locked_rows(
+        &self,
+        table: &str,
+        schema: &Schema,
+        condition: &Condition,
+        rows: Vec<(SlabRowId, Row, Vec<SlabColumnValue>)>,
+    ) -> Result<Vec<(SlabRowId, Row, Vec<SlabColumnValue>)>> {
+        let max_depth = self.config.max_condition_depth;
+        let mut current = Vec::with_capacity(rows.len());
+        for (slab_row_id, _, _) in rows {
+            let Some(slab_row) = self
+                .slab()
+                .get(table, slab_row_id)
+                .map_err(|e| RelationalError::StorageError(e.to_string()))?
+            else {
+                continue;
+            };
+            let row = Self::slab_row_to_engine_row(schema, slab_row_id, slab_row.clone());
+            if condition.evaluate_with_depth(&row, 0, max_depth)? {
+                current.push((slab_row_id, row, slab_row));
+            }
+        }
+        Ok(current)
+    }
+
     /// Insert a row within a transaction.
     ///
     /// # Errors
     /// Returns `TransactionNotFound`, `TransactionInactive`, `TableNotFound`,
-    /// `NullNotAllowed`, `TypeMismatch`, or `StorageError`.
+    /// `NullNotAllowed`, `TypeMismatch`, `LockConflict`, or `StorageError`.
     #[allow(clippy::cast_possible_wrap)] // Row IDs won't exceed i64::MAX
     #[allow(clippy::needless_pass_by_value)] // Public API takes ownership for ergonomics
     #[instrument(skip(self, values), fields(tx_id, table = %table))]
@@ -6942,6 +6973,9 @@ impl RelationalEngine {
                 })?;
         }
 
+        // The scan above ran without locks: re-read the rows now that they are locked
+        let matching_rows = self.reread_locked_rows(table, &schema, &condition, matching_rows)?;
+
         // Convert updates to slab format
         let slab_updates: Vec<(String, SlabColumnValue)> = updates
             .iter()
@@ -7060,6 +7094,9 @@ impl RelationalEngine {
                     row_id: info.row_id,
                 })?;
         }
+
+        // The scan above ran without locks: re-read the rows now that they are locked
+        let to_delete = self.reread_locked_rows(table, &schema, &condition, to_delete)?;
 
         for (slab_row_id, row, old_slab_values) in &to_delete {
             // Capture index entries for undo
